@@ -209,6 +209,9 @@ pub enum Op {
     AddAssign(u8),
     Add(u8),
     WriteFmt(u8),
+    /// `write!(s, "<{}>{}{}", 5, bad, "tail")` where `bad`'s Display writes "[1|" and then returns
+    /// Err (kind 0) or panics (kind 1): String keeps "<5>[1|"
+    WriteFmtBad(u8, u8),
     // operations that fail without fault injection
     ReserveHuge(u8, u8), // 0: 1<<60 (limit), 1: 1<<40 (allocator refuses), 2: usize::MAX
     ExtendHuge(u8, u8),  // size_hint lower bound huge, yields n items
@@ -227,7 +230,7 @@ impl Op {
             New | FromStr(_) | FromString(_) | Collect(_) | ToLeanDisplay(_) | ToLeanSwallow(_) | FromStatic(_) | WithCap(_) | WithCapAbs(_) | Conv(..) => return None,
             Clone(_) | FromRef(_) | ToLeanClone(_) => return None,
             CloneFrom(_, d) | Assign(_, d) => d,
-            Drop(i) | Push(i, _) | PushStr(i, _) | Pop(i) | Remove(i, _) | Insert(i, _, _) | InsertStr(i, _, _) | Truncate(i, _) | Clear(i) | Retain(i, _) | Reserve(i, _) | ShrinkTo(i, _) | ShrinkFit(i) | ExtendChars(i) | ExtendStrs(i) | ExtendLean(i, _) | ExtendFiltered(i) | ExtendLying(i, _) | AddAssign(i) | Add(i) | WriteFmt(i) | ReserveHuge(i, _) | ExtendHuge(i, _) | RetainPanic(i, _) | TruncateAbs(i, _) | PushAscii(i, _) => i,
+            Drop(i) | Push(i, _) | PushStr(i, _) | Pop(i) | Remove(i, _) | Insert(i, _, _) | InsertStr(i, _, _) | Truncate(i, _) | Clear(i) | Retain(i, _) | Reserve(i, _) | ShrinkTo(i, _) | ShrinkFit(i) | ExtendChars(i) | ExtendStrs(i) | ExtendLean(i, _) | ExtendFiltered(i) | ExtendLying(i, _) | AddAssign(i) | Add(i) | WriteFmt(i) | WriteFmtBad(i, _) | ReserveHuge(i, _) | ExtendHuge(i, _) | RetainPanic(i, _) | TruncateAbs(i, _) | PushAscii(i, _) => i,
         } as usize)
     }
     pub fn is_ctor(self) -> bool {
@@ -276,6 +279,8 @@ impl Op {
             AddAssign(_) => "add_assign",
             Add(_) => "add",
             WriteFmt(_) => "write_fmt",
+            WriteFmtBad(_, 0) => "write_fmt_display_err",
+            WriteFmtBad(..) => "write_fmt_display_panic",
             ReserveHuge(..) => "reserve_huge",
             ExtendHuge(..) => "extend_huge_hint",
             RetainPanic(..) => "retain_panic",
@@ -292,6 +297,8 @@ pub enum Form {
 #[derive(Clone, Debug, PartialEq, Eq)]
 pub enum Out {
     Unit,
+    /// `fmt::Result::is_ok()` of a `write!`
+    Fmt(bool),
     OptChar(Option<char>),
     Char(char),
 }
@@ -628,6 +635,7 @@ pub fn grow_bytes(p: &Pool, op: Op) -> usize {
         PushStr(_, s) | InsertStr(_, _, s) => texts(|t| t.strs[s as usize].len()),
         PushAscii(_, n) => n as usize,
         AddAssign(_) | Add(_) | WriteFmt(_) => 2,
+        WriteFmtBad(..) => 6,
         ExtendChars(_) | ExtendFiltered(_) | ExtendLying(..) => 4,
         ExtendStrs(_) => 3,
         ExtendHuge(_, n) => [0, 1, 3][n as usize],
@@ -685,7 +693,7 @@ pub fn op_enabled(p: &Pool, op: Op, lim: &Limits) -> bool {
                 },
             }
         }
-        Push(i, _) | PushStr(i, _) | ExtendChars(i) | ExtendFiltered(i) | ExtendLying(i, _) | ExtendStrs(i) | AddAssign(i) | Add(i) | WriteFmt(i) | PushAscii(i, _) | ExtendHuge(i, _) => has(i) && grows_ok(i),
+        Push(i, _) | PushStr(i, _) | ExtendChars(i) | ExtendFiltered(i) | ExtendLying(i, _) | ExtendStrs(i) | AddAssign(i) | Add(i) | WriteFmt(i) | WriteFmtBad(i, _) | PushAscii(i, _) | ExtendHuge(i, _) => has(i) && grows_ok(i),
         Drop(i) | Pop(i) | Clear(i) | Retain(i, _) | ShrinkTo(i, _) | ShrinkFit(i) | ReserveHuge(i, _) | TruncateAbs(i, _) => has(i),
         Reserve(i, k) => has(i) && lim.post.is_none_or(|post| p.m[i as usize].as_ref().unwrap().len() + texts(|t| t.reserves[k as usize]) <= post),
         RetainPanic(i, k) => has(i) && p.m[i as usize].as_ref().unwrap().chars().count() >= k as usize,
@@ -969,6 +977,26 @@ pub fn exec(p: &mut Pool, op: Op, form: Form) -> (Outcome, Expect) {
             let r = quiet(|| write!(h, "{}{}", 7, "w").unwrap());
             write!(m, "{}{}", 7, "w").unwrap();
             (r.map(|_| Outcome::Done(Out::Unit)).unwrap_or_else(Outcome::Panic), Expect::Done(Out::Unit))
+        }
+        WriteFmtBad(i, kind) => {
+            let (h, m) = hm!(i);
+            let bad = BadDisplay(kind);
+            let r = quiet(|| write!(h, "<{}>{}{}", 5, bad, "tail").is_ok());
+            let e = quiet(|| write!(m, "<{}>{}{}", 5, bad, "tail").is_ok());
+            (r.map(|b| Outcome::Done(Out::Fmt(b))).unwrap_or_else(Outcome::Panic), e.map(|b| Expect::Done(Out::Fmt(b))).unwrap_or(Expect::Panic))
+        }
+    }
+}
+
+/// A Display implementation that writes some text and then fails (kind 0) or panics (kind 1).
+pub struct BadDisplay(pub u8);
+impl std::fmt::Display for BadDisplay {
+    fn fmt(&self, f: &mut std::fmt::Formatter<'_>) -> std::fmt::Result {
+        f.write_str("[1|")?;
+        if self.0 == 0 {
+            Err(std::fmt::Error)
+        } else {
+            panic!("display panics")
         }
     }
 }
